@@ -42,7 +42,8 @@ def meta(tier, seed):
                   "exactly those rows (row seed replicated for randomised policies); KNearest: any admissible tie-break; "
                   "empty neighbourhood: all NaN and predict == arms[clone(row seed).choice(k, p)] (never a p=0 arm)",
         "bounds": {"grids": {"quick": ["1d n<=3", "2d6 n<=3 (n=3: 3 arm assignments)", "2dm n<=2"],
-                             "thorough": ["1d n<=4", "2d9 n<=3", "2d6 n<=4", "2dm n<=3"]}[tier],
+                             "thorough": ["1d n<=4", "2d9 n<=3", "2d6 n<=3 (all arm assignments)", "2dm n<=3",
+                                          "policies beyond eg0/ucb/lucb: n<=2 on 1d and 2d6"]}[tier],
                    "metrics": METRICS, "radii": "every distance value occurring in the grid (euclidean: math.sqrt of the squared distance), at most 6", "k": "1..n",
                    "policies": LP_QUICK if tier == "quick" else LP_THOROUGH, "rewards": "row i rewarded 2^i (binary i%2 for Thompson)"},
         "assumptions": ["metrics whose distances are irrational on the grid are not checked at the boundary",
@@ -53,7 +54,7 @@ def meta(tier, seed):
 def shards(tier, seed):
     out = []
     lps = LP_QUICK if tier == "quick" else LP_THOROUGH
-    grids = [("1d", 3), ("2d6", 3), ("2dm", 2)] if tier == "quick" else [("1d", 4), ("2d9", 3), ("2d6", 4), ("2dm", 3)]
+    grids = [("1d", 3), ("2d6", 3), ("2dm", 2)] if tier == "quick" else [("1d", 4), ("2d9", 3), ("2d6", 3), ("2dm", 3)]
     for g, nmax in grids:
         for metric in METRICS:
             if g == "1d" and metric in ("chebyshev", "euclidean"):
@@ -63,6 +64,8 @@ def shards(tier, seed):
             for kind in ("rad", "knn"):
                 for ln in lps:
                     for n in range(1, nmax + 1):
+                        if tier == "thorough" and ln not in LP_QUICK and (g in ("2d9", "2dm") or n > 2):
+                            continue        # the randomised / further policies: short tuples on the small grids
                         firsts = range(len(GRIDS[g])) if (n == nmax and n >= 3 and g != "1d") else [None]
                         for first in firsts:     # the biggest tuples are split by their first point
                             out.append({"grid": g, "n": n, "metric": metric, "kind": kind, "ln": ln, "seed": 41 + seed,
@@ -95,7 +98,7 @@ def radii(metric, grid=None):
 
 
 def assignments(n, tier):
-    if n <= 2 or tier == "thorough" and n == 3:
+    if n <= 2:
         return [list(p) for p in itertools.product([1, 2], repeat=n)]
     base = [[1, 2] * n, [1, 1, 2, 2] * n, [2] * n]
     return [b[:n] for b in base]
@@ -264,7 +267,10 @@ def _run_shard(shard):
     for pts in itertools.product(grid, repeat=n):
         if shard.get("first") is not None and pts[0] != grid[shard["first"]]:
             continue
-        for asg in assignments(n, tier):
+        asgs = assignments(n, tier)
+        if tier == "thorough" and g == "2d6" and n == 3:
+            asgs = [list(p) for p in itertools.product([1, 2], repeat=n)]
+        for asg in asgs:
             hist_rows = [(asg[i], list(pts[i]), reward(ln, i)) for i in range(n)]
             for ci, comp in enumerate(comps):
                 for pi, (param, thr) in enumerate(params):
